@@ -179,3 +179,11 @@ Definition ecase_prop_ok (c : ecase) : bool :=
       ((N.of_nat (length (e_exchs c)) =? e_want c) || e_closed c)
   | None => false
   end.
+
+(* ---------------------------------------------------------------- (t) delivery times, end to end (tested, not proved) *)
+(* per required delivery: (time the completed event/chunk was visible at the client,
+   time the origin wrote its next piece), microseconds; every required delivery was measured *)
+Record tcase := { t_checks : list (Z * Z); t_expected : N }.
+Definition tcase_prop_ok (c : tcase) : bool :=
+  (N.of_nat (length (t_checks c)) =? t_expected c) &&
+  forallb (fun p => (fst p <? snd p)%Z) (t_checks c).
